@@ -61,6 +61,55 @@ def family(prop, tier, exe, wd):
         raise ToolError("no family for " + prop)
     pred = {"C03": F.no_abs, "C04": F.no_abs, "C07": F.has_norep, "C09": F.has_special, "C08": F.has_abs}.get(prop)
     jobs += F.modifier_table(pred)
+    jobs += fancy_ref_jobs(pred, 40 if not thorough else 400)
+    return jobs
+
+
+def fancy_ref_jobs(pred, n):
+    """Source programs of the layout language (FancyGen.tla, the C13 family) loaded by the REAL loader into the real mapper, while the
+    layout the properties are judged against is the REFERENCE expansion Fancy!Expand computed by TLC: the properties are about the
+    layout the user wrote. Only programs whose every source item expands to exactly one mapping (no ordering freedom inside a block)."""
+    import hashlib
+    h = hashlib.sha1()
+    for f in ("Fancy.tla", "FancyGen.tla"):
+        h.update(open(os.path.join(SPEC, f), "rb").read())
+    cdir = os.path.join(ROOT, "work", "cache")
+    os.makedirs(cdir, exist_ok=True)
+    cpath = os.path.join(cdir, "fancygen-size1-%s.ndjson" % h.hexdigest()[:12])
+    if not os.path.exists(cpath):
+        import e3
+        wd = workdir("fancygen-cache")
+        p, _ = e3.generate(wd, "FancyGen", {"Size": 1}, timeout=1800, mem="8g")
+        os.replace(p, cpath)
+    out, seen = [], set()
+    with open(cpath) as f:
+        for line in f:
+            if '"ok":true' not in line:
+                continue
+            c = json.loads(line)
+            e = c["expect"]
+            lay = e["mappings"]
+            if not e["ok"] or not (1 <= len(lay) <= 4) or any(b > 1 for b in e["blocks"] + e["tailblocks"]):
+                continue
+            if pred is not None and not pred(lay):
+                continue
+            key = json.dumps(lay, sort_keys=True)
+            if key in seen:
+                continue
+            seen.add(key)
+            out.append((c["id"], c["json"], lay))
+    step = max(1, len(out) // n)
+    jobs = []
+    for cid, src, lay in out[::step][:n]:
+        ks = []
+        for m in lay:
+            for k in m["from"] + m["to"] + m["absorbing"]:
+                if k not in ks:
+                    ks.append(k)
+        for k in ("F", "LEFTALT"):
+            if k not in ks:
+                ks.append(k)
+        jobs.append({"id": "fancyref-%d" % cid, "fancy": src, "layout_ref": lay, "keys": ks[:8], "maxheld": 3})
     return jobs
 
 
@@ -255,6 +304,13 @@ def deep_walks(res, exe, wd, prop, tier):
     if prop in ("C03", "C04"):
         for i, j in enumerate(F.dist_family("dist", 1, 40)[::4]):
             jobs.append(dict(j, id="walk-" + j["id"], maxheld=5, steps=300 if not thorough else 1000, seed=1000 * sd + i))
+    # the same kind of histories through the REAL loop and the REAL driver at the system-call level (tmv walk, via = loop): what is judged
+    # there is what the loop WROTE to the virtual keyboard after each event it read, with evdev framing noise rotating over the walks
+    direct = list(jobs)
+    for i, j in enumerate(direct):
+        if j["id"].startswith("walk-builtin") and not j["id"].endswith("-0"):
+            continue
+        jobs.append(dict(j, id=j["id"] + "-loop", via="loop", noise=i % 4, steps=min(j["steps"], 600 if not thorough else 2000), seed=j["seed"] + 7))
     nchunks = PROCS
     t0 = time.time()
     traces = []
@@ -305,15 +361,20 @@ def deep_walks(res, exe, wd, prop, tier):
             start = max(i for i, row in enumerate(rows[:at]) if row.get("c") == "reset")
             hist = [row["e"] for row in rows[start + 1:at]]
             nbad += 1
+            wjob = next((j for j in jobs if j["id"] == wid), {})
             if nbad <= 5:
                 res.violation(",".join(clauses), {"engine": "E1-mapper-walk", "walk_id": wid, "layout": rows[start]["layout"], "keys": rows[start]["keys"], "history": hist,
+                                                   "via": wjob.get("via", "direct"), "noise": wjob.get("noise", 0),
                                                    "observed": [{"in": row["e"], "out": row["ev"], "rep": row["rep"]} for row in rows[max(start + 1, at - 8):at]],
                                                    "how": "bin/check %s --replay <this file> lets the real mapper follow exactly this history again and TLC judge it" % prop})
             else:
                 res.more_violations += 1
-    log("[walks] %d random walks of the real mapper, %d steps judged by TLC, %d with a mapping fired, %d drifts, %.1fs" % (regs[0], regs[1], regs[3], regs[2], time.time() - t0))
+    log("[walks] %d random walks of the real mapper (%d of them through the real loop and driver), %d steps judged by TLC, %d with a mapping fired, %d drifts, %.1fs" % (regs[0], sum(1 for j in jobs if j.get("via") == "loop"), regs[1], regs[3], regs[2], time.time() - t0))
     return {"deep_walks": regs[0], "deep_walk_steps_validated": regs[1], "deep_walk_steps_with_a_mapping_fired": regs[3], "deep_walk_release_all_steps": regs[4], "deep_walk_drifts": regs[2],
-            "deep_walk_bounds": "random histories over every key the layout mentions (+2 foreign), 4-6 keys held, 7% ill-formed events, 1% release_all"}
+            "deep_walks_through_the_real_loop_and_driver": sum(1 for j in jobs if j.get("via") == "loop"),
+            "deep_walk_bounds": "random histories over every key the layout mentions (+2 foreign), 4-6 keys held, 7% ill-formed events, 1% release_all; about half of the walks are taken "
+                                "through the real per-device loop and the real driver at the system-call level (one event per wake-up, a reset = the tablet switch going on and off, "
+                                "evdev framing / auto-repeat noise): there the judged output is what the loop wrote to the virtual keyboard"}
 
 
 def replay_walk(prop, path):
@@ -322,7 +383,7 @@ def replay_walk(prop, path):
         exe = build_harness()
         wd = workdir("%s-replay" % prop)
         jp = os.path.join(wd, "walkjobs.json")
-        json.dump({"jobs": [{"id": "replay", "layout": rp["layout"], "keys": rp["keys"], "maxheld": 9, "history": rp["history"]}]}, open(jp, "w"))
+        json.dump({"jobs": [{"id": "replay", "layout": rp["layout"], "keys": rp["keys"], "maxheld": 9, "history": rp["history"], "via": rp.get("via", "direct"), "noise": rp.get("noise", 0)}]}, open(jp, "w"))
         tp = os.path.join(wd, "walk.ndjson")
         run_tmv(exe, ["walk", jp], stdout_path=tp)
         props = [prop] + (["RA"] if prop in WITH_RA or any(e["t"] == "RA" for e in rp["history"]) else [])
